@@ -420,6 +420,7 @@ var meta08LockSpecs = []*LockSpec{
 
 func runC08(c *Ctx, tier string) {
 	p := c.P
+	runSlicerBounds(c, "C08-S2")
 	c.Rule("C08-L1", "the lister and slicer shared by the scatter legs are only touched with their mutex held (helpers are requires-held and called with it)")
 	c.Rule("C08-L2", "no call with a deferred unlock pending on a released mutex")
 	c.Rule("C08-L4", "no reentrant acquisition")
